@@ -281,6 +281,48 @@ example : (match mkMap {} specsDefaults with
        | _, _ => false)
     | none => false) = true := by decide +kernel
 
+def specsSuperset : List RuleSpec :=
+  [ { toks := [.slash, .lit "articles".toList, .slash], endpoint := "art".toList,
+      defaults := [("page".toList, .int 1), ("order".toList, .str "date".toList)] },
+    { toks := [.slash, .lit "articles".toList, .slash, .lit "page".toList, .slash, .var (.int 0 false none none) "page".toList],
+      endpoint := "art".toList } ]
+
+-- `provides_defaults_for` demands EQUAL argument sets: a defaults rule with an extra default-only argument
+-- (`order`) does not canonicalise `/articles/page/1` — it is matched as it stands, with {'page': 1}
+example : (match mkMap {} specsSuperset with
+    | some m =>
+      (match matchAdapter m { adapter0 with scriptName := "/".toList, queryArgs := .none } "/articles/page/1".toList none .none none with
+       | .matched r vals => r.idx == 1 && vals == [("page".toList, Value.int 1)]
+       | _ => false) &&
+      (match m.rules with
+       | [r0, r1] => !providesDefaultsFor m.cfg r0 r1 && !sameSet r0.arguments r1.arguments
+       | _ => false)
+    | none => false) = true := by decide +kernel
+
+def specsF12c : List RuleSpec :=
+  [ { toks := [.slash, .lit "a".toList, .slash, .var (.any ["a".toList, "b".toList]) "n".toList, .slash], endpoint := "e".toList },
+    { toks := [.slash, .lit "idx".toList, .slash], endpoint := "e".toList,
+      defaults := [("n".toList, .str "b".toList), ("fmt".toList, .int 0)] },
+    { toks := [.slash, .lit "alt".toList, .slash, .lit "a".toList, .slash, .var (.any ["a".toList, "b".toList]) "n".toList, .slash],
+      endpoint := "e".toList, alias := true } ]
+
+/-- **F12c (witness).** The alias redirect does not have the equal-arguments guard of the defaults
+redirect: `make_alias_redirect_url` canonicalises through `build()`, whose rule order prefers the rule
+with more arguments and whose `suitable_for` accepts extra default-only arguments. On the unchanged
+code `/alt/a/b/` (alias, denotes `{'n': 'b'}`) is redirected to `/idx/`, which denotes
+`{'n': 'b', 'fmt': 0}`: same endpoint, one more argument. -/
+theorem alias_redirect_adds_default_arguments :
+    (match mkMap {} specsF12c with
+     | some m =>
+       let a := { adapter0 with scriptName := "/".toList, queryArgs := QueryArgs.none }
+       (match matchSM m.root true true ⟨"GET".toList, false⟩ [] "/alt/a/b/".toList,
+              follow m a none none 3 "/alt/a/b/".toList .none [] with
+        | .aliasRedirect _ vals, ([.redirect url, .matched r' vals'], none) =>
+          vals == [("n".toList, Value.str "b".toList)] && url == "https://example.org/idx/".toList &&
+          r'.idx == 1 && vals' == [("n".toList, Value.str "b".toList), ("fmt".toList, Value.int 0)]
+        | _, _ => false)
+     | none => false) = true := by decide +kernel
+
 -- OPEN (P1): slash_redirect_converges at full strength — "match (p ++ '/') is not again a slash redirect and
 -- returns the rule/values the original would have" — is FALSE as it stands (F12b above). Proved: the target
 -- is directly admitted by the strict rule that asked for the slash and its search is not `None`, and by
@@ -294,7 +336,7 @@ example : (match mkMap {} specsDefaults with
 -- the re-match denotes the same endpoint and arguments. Missing: that the re-match is not followed by a
 -- second defaults redirect (the first rule of the endpoint that provides defaults was chosen, so no
 -- earlier one is suitable — an argument about `suitable_for` under Python `==` that is not formalised),
--- and the alias redirect; both are covered by stream `redirects` (oracle: chain ends, no two
+-- and the alias redirect (which can add default-only arguments: F12c above); both are covered by stream `redirects` (oracle: chain ends, no two
 -- consecutive canonical redirects on unambiguous maps, final endpoint/arguments equal the original's).
 
 end Wz.Props.C12
